@@ -16,6 +16,7 @@ import (
 
 	"github.com/sourcenetwork/immutable"
 
+	acpTypes "github.com/sourcenetwork/defradb/acp/types"
 	"github.com/sourcenetwork/defradb/client"
 	"github.com/sourcenetwork/defradb/client/request"
 	"github.com/sourcenetwork/defradb/errors"
@@ -23,6 +24,7 @@ import (
 	coreblock "github.com/sourcenetwork/defradb/internal/core/block"
 	"github.com/sourcenetwork/defradb/internal/datastore"
 	"github.com/sourcenetwork/defradb/internal/db/fetcher"
+	"github.com/sourcenetwork/defradb/internal/db/permission"
 	"github.com/sourcenetwork/defradb/internal/keys"
 	"github.com/sourcenetwork/defradb/internal/planner/mapper"
 )
@@ -233,6 +235,39 @@ func (n *dagScanNode) Next() (bool, error) {
 	dagBlock, err := coreblock.GetFromBytes(block.RawData())
 	if err != nil {
 		return false, err
+	}
+
+	// The commits of a document the requester may not read must stay invisible as well.
+	if n.planner.documentACP.HasValue() {
+		if docID := string(dagBlock.Delta.GetDocID()); docID != "" {
+			cols, err := n.planner.db.GetCollections(
+				n.planner.ctx,
+				client.CollectionFetchOptions{
+					IncludeInactive: immutable.Some(true),
+					VersionID:       immutable.Some(dagBlock.Delta.GetSchemaVersionID()),
+				},
+			)
+			if err != nil {
+				return false, err
+			}
+			if len(cols) > 0 {
+				hasPermission, err := permission.CheckAccessOfDocOnCollectionWithACP(
+					n.planner.ctx,
+					n.planner.identity,
+					n.planner.documentACP.Value(),
+					cols[0],
+					acpTypes.DocumentReadPerm,
+					docID,
+				)
+				if err != nil {
+					return false, err
+				}
+				if !hasPermission {
+					n.visitedNodes[currentCid.String()] = true
+					return n.Next()
+				}
+			}
+		}
 	}
 
 	if n.commitSelect.FieldName.HasValue() {
